@@ -80,13 +80,15 @@ pub fn triangle_valid<S: Src>(s: &mut S, n: i8) {
 }
 
 harnesses! {
+    #[kani::unwind(7)] #[kani::stub(robust::orient2d, crate::stubs::orient2d_small)] fn c14_ring3_g1(s) { ring3(s, 1, Some(false)) }
+    #[kani::unwind(7)] #[kani::stub(robust::orient2d, crate::stubs::orient2d_small)] fn c14_ring3_g1_kf_collinear(s) { ring3(s, 1, Some(true)) }
     #[kani::unwind(7)] #[kani::stub(robust::orient2d, crate::stubs::orient2d_small)] fn c14_ring3_g2(s) { ring3(s, 2, Some(false)) }
     #[kani::unwind(7)] #[kani::stub(robust::orient2d, crate::stubs::orient2d_small)] fn c14_ring3_g2_kf_collinear(s) { ring3(s, 2, Some(true)) }
     #[kani::unwind(8)] #[kani::stub(robust::orient2d, crate::stubs::orient2d_small)] fn c14_ring4_g1(s) { ring4(s, 1) }
     #[kani::unwind(5)] fn c14_simple_types(s) { simple_types(s) }
     #[kani::unwind(5)] #[kani::stub(robust::orient2d, crate::stubs::orient2d_small)] fn c14_triangle_g2(s) { triangle_valid(s, 2) }
     #[kani::unwind(7)] #[kani::stub(robust::orient2d, crate::stubs::orient2d_small)] fn c14_sanity_must_fail(s) {
-        ring3(s, 1, None);
+        ring3(s, 1, Some(false));
         assert!(false, "sanity twin reached its end");
     }
 }
